@@ -203,6 +203,15 @@ Proof.
   intros c n [_ Hf]. rewrite Hq. exact Hf.
 Qed.
 
+(* a disconnected send (MSendPost with the receiver gone) takes the view it
+   appended back: dropping entries at the END of the FIFO keeps chan_le *)
+Lemma chan_le_unsend : forall s s' l,
+  ch_sender_sync s' = ch_sender_sync s -> ch_recv_sync s = ch_recv_sync s' ++ l -> chan_le s s'.
+Proof.
+  intros s s' l Hs Hq. split; [rewrite Hs; apply vle_refl|].
+  intros c n [_ Hf]. rewrite Hq, skipn_app in Hf. apply Forall_app in Hf. exact (proj1 Hf).
+Qed.
+
 Definition is_alloc (o : object) : Prop := exists d, o = OAlloc d.
 
 (* ================================================================== *)
@@ -819,8 +828,28 @@ Ltac mono_tac :=
 
 (* every state produced by a micro-operation, successful or panicking, is
    above the state it started from *)
+(* MSendPost writes the channel object twice when the receiver is gone (push,
+   then Channel::undo_send): the second write is above the first (chan_le_unsend) *)
+Lemma send_post_mono e me h v : mono e (res_exec (exec_micro e me (MSendPost h v))).
+Proof.
+  cbn [exec_micro]. destruct (get_chan e h) as [s|] eqn:Hget; [|mclose]. cbv zeta.
+  match goal with |- context [ho_rx ?x] => destruct (ho_rx x) end; cbv iota.
+  - repeat mstep. all: mclose.
+  - cbn [res_exec]. apply mono_log_op_k. apply mono_upd_object_k.
+    + intros o Ho. apply get_chan_nth in Hget.
+      assert (Hmid : forall (c : bool) f p g,
+                 nth_error (e_objects (if c then map_others (upd_object e h f) me p g
+                                       else upd_object e h f)) h = Some (f (OChannel s))).
+      { intros c f p g. destruct c; [rewrite e_objects_map_others|];
+          rewrite e_objects_upd_object; rewrite nth_error_list_upd_same; rewrite Hget;
+          reflexivity. }
+      rewrite Hmid in Ho. injection Ho as Ho. subst o. cbn [obj_le].
+      eapply chan_le_unsend; view_cbn; reflexivity.
+    + repeat mstep. all: mclose.
+Qed.
+
 Lemma exec_micro_mono e me m : mono e (res_exec (exec_micro e me m)).
-Proof. destruct m; mono_tac. Qed.
+Proof. destruct m; try apply send_post_mono; mono_tac. Qed.
 
 (* ---- the requested one-step statements ---- *)
 Lemma exec_micro_mono_ok e me m e' : exec_micro e me m = MOk e' -> mono e e'.
@@ -1221,12 +1250,19 @@ Lemma send_post_tail e a h v s e1 n :
   Forall (vle (caus_of e a)) (skipn n (ch_recv_sync s)) ->
   exists s1, get_chan e1 h = Some s1 /\ chan_tail (caus_of e a) n s1.
 Proof.
-  intros Hg Hsend Hq. destruct (send_post_publishes e a h v s e1 Hg Hsend)
-    as (s1 & Hg1 & _ & Hq1 & Hc & _).
-  exists s1. split; [exact Hg1|]. split; [exact Hc|].
-  rewrite Hq1, skipn_app. apply Forall_app. split; [exact Hq|].
-  apply (Forall_skipn_le _ (vle (caus_of e a)) 0 _ [ch_sender_sync s1] (Nat.le_0_l _)).
-  cbn [skipn]. constructor; [exact Hc|constructor].
+  intros Hg Hsend Hq. destruct (ho_rx (get_h e h)) eqn:Hrx.
+  - (* receiver alive: the view is appended *)
+    destruct (send_post_publishes e a h v s e1 Hg Hrx Hsend)
+      as (s1 & Hg1 & _ & Hq1 & Hc & _).
+    exists s1. split; [exact Hg1|]. split; [exact Hc|].
+    rewrite Hq1, skipn_app. apply Forall_app. split; [exact Hq|].
+    apply (Forall_skipn_le _ (vle (caus_of e a)) 0 _ [ch_sender_sync s1] (Nat.le_0_l _)).
+    cbn [skipn]. constructor; [exact Hc|constructor].
+  - (* receiver gone: the queue is untouched, the sender-side view still gets a's clock *)
+    destruct (send_post_disconnected e a h v s e1 Hg Hrx Hsend) as (s1 & Hg1 & _ & Hq1 & _).
+    exists s1. split; [exact Hg1|]. split.
+    + exact (send_post_disconnected_sender_sync e a h v s e1 s1 Hg Hrx Hsend Hg1).
+    + rewrite Hq1. exact Hq.
 Qed.
 
 Lemma recv_post_inv e b h lg e' s :
